@@ -860,15 +860,16 @@ var blockRules = map[BlockKind]blockRule{
 	ListItemKind: {
 		match: func(p *lineParser) bool {
 			switch {
-			case p.IsRestBlank():
-				if !p.ListItemContainerHasChildren() {
-					// A list item can begin with at most one blank line.
-					return false
-				}
-				p.ConsumeIndent(p.Indent())
-				return true
+			case p.IsRestBlank() && !p.ListItemContainerHasChildren():
+				// A list item can begin with at most one blank line.
+				return false
 			case p.Indent() >= p.ContainerIndent():
+				// (Also for a line of nothing but spaces:
+				// what is left of it may be content of a code block in the item.)
 				p.ConsumeIndent(p.ContainerIndent())
+				return true
+			case p.IsRestBlank():
+				p.ConsumeIndent(p.Indent())
 				return true
 			default:
 				return false
